@@ -1251,9 +1251,15 @@ impl<'ctx> ByteCompiler<'ctx> {
     ///
     /// Returns `Some(HoistedOperand)` when one side of a relational comparison
     /// is a literal value (e.g. `i < 10` hoists `10`).
+    ///
+    /// A `const` identifier is only hoisted when reading it early cannot be observed:
+    /// never when the loop body runs before the condition (`do ... while`), never inside
+    /// `with` (the name is resolved dynamically on every iteration), and as right operand
+    /// only if the left operand has no side effects that must precede a TDZ error.
     pub(crate) fn try_hoist_loop_condition(
         &mut self,
         condition: Option<&Expression>,
+        body_runs_first: bool,
     ) -> Option<HoistedOperand> {
         #[cfg(boa_verif)]
         if crate::verif::switch(crate::verif::NO_LOOP_HOIST) {
@@ -1273,8 +1279,13 @@ impl<'ctx> ByteCompiler<'ctx> {
             | RelationalOp::GreaterThanOrEqual => {}
             _ => return None,
         }
+        let identifiers = !body_runs_first && !self.in_with;
+        let lhs_is_simple = matches!(
+            binary.lhs().flatten(),
+            Expression::Literal(_) | Expression::Identifier(_)
+        );
         // Prefer hoisting RHS (most common pattern: `i < 10`)
-        if self.is_loop_invariant(binary.rhs()) {
+        if self.is_loop_invariant(binary.rhs(), identifiers && lhs_is_simple) {
             let reg = self.register_allocator.alloc();
             self.compile_expr(binary.rhs(), &reg);
             return Some(HoistedOperand {
@@ -1283,7 +1294,7 @@ impl<'ctx> ByteCompiler<'ctx> {
             });
         }
         // Try LHS (less common: `0 < i`)
-        if self.is_loop_invariant(binary.lhs()) {
+        if self.is_loop_invariant(binary.lhs(), identifiers) {
             let reg = self.register_allocator.alloc();
             self.compile_expr(binary.lhs(), &reg);
             return Some(HoistedOperand {
@@ -1304,10 +1315,13 @@ impl<'ctx> ByteCompiler<'ctx> {
     ///   [`compile_expr_operand`](Self::compile_expr_operand) (i.e., not local
     ///   and not in `const_binding_cache`), since those are already handled
     ///   with zero instructions inside the loop.
-    fn is_loop_invariant(&self, expr: &Expression) -> bool {
+    fn is_loop_invariant(&self, expr: &Expression, identifiers: bool) -> bool {
         match expr {
             Expression::Literal(_) => true,
             Expression::Identifier(name) => {
+                if !identifiers {
+                    return false;
+                }
                 let name = self.resolve_identifier_expect(*name);
                 let binding = self.lexical_scope.get_identifier_reference(name.clone());
                 // Local bindings already use persistent registers directly
